@@ -579,6 +579,16 @@ func (c *Conn) CloseLast() (res TxResult) {
 // the shared-memory file and the log, then rewrite page 1 (file-format
 // versions 1/1) inside an ordinary rollback-journal transaction.
 func (c *Conn) SwitchToRollback(mode string) (res TxResult) {
+	return c.switchToRollback(mode, false)
+}
+
+// SwitchToRollbackExclusive: as SwitchToRollback, with the lock sequence SQLite
+// uses for the header rewrite (EXCLUSIVE straight from SHARED, no RESERVED).
+func (c *Conn) SwitchToRollbackExclusive(mode string) (res TxResult) {
+	return c.switchToRollback(mode, true)
+}
+
+func (c *Conn) switchToRollback(mode string, exclusiveFirst bool) (res TxResult) {
 	d := c.D
 	fail := func(step string, err error) TxResult {
 		res.Err, res.ErrStep = err, step
@@ -611,5 +621,5 @@ func (c *Conn) SwitchToRollback(mode string) (res TxResult) {
 	_ = c.UnlockAll()
 	d.WALMode = false
 	c.readMark = -1
-	return c.RunRollbackTx(RollbackSpec{Mode: mode, Outcome: "commit", NewPageN: d.M.PageN})
+	return c.RunRollbackTx(RollbackSpec{Mode: mode, Outcome: "commit", NewPageN: d.M.PageN, ExclusiveFirst: exclusiveFirst})
 }
